@@ -144,11 +144,14 @@ UNIT_PARSE = dict(
 
 GO_PARSE = dict(
     result='r', props=['C01', 'C02', 'C04'], slice_matches=True,
+    # whatever is skipped in front, the rest is handled exactly like a Unit comment, and moved back by exactly what was skipped
+    ensures=['self.go_post(source@, r@)'],
     for_each=[dict(invariant=['start <= source@.len()', 'source@.len() * 8 <= usize::MAX', 'ordered(nt0)'] + SHIFT_INV('start', 'source@.len() - start'),
                    body_proof='assert(span_in(nt0[__i - 1].span, source@.len() - start));')],
     proofs=[dict(at='body_start', kind='broadcast', text='broadcast use axiom_char_slice_bytes;'),
             dict(before='new_tokens.iter_mut', kind='ghost', text='let ghost nt0 = new_tokens@;'),
             dict(before='new_tokens', nth=2, text='''
+        if self.inner.sp_det() { assert(new_tokens@ =~= shift_all(nt0, start as int)); assert(nt0 == unit_toks(&*self.inner, source@.subrange(start as int, source@.len() as int), 0, false)); }
         assert forall|j: int| 0 <= j < new_tokens@.len() implies span_in((#[trigger] new_tokens@[j]).span, source@.len() as int) by { assert(span_in(nt0[j].span, source@.len() - start)); }
         assert forall|i: int, j: int| 0 <= i < j < new_tokens@.len() implies (#[trigger] new_tokens@[i]).span.end <= (#[trigger] new_tokens@[j]).span.start by { assert(nt0[i].span.end <= nt0[j].span.start); }''')],
 )
@@ -180,10 +183,18 @@ def build(repo):
     U.fn(C + 'unit.rs', 'line_is_code_fence', dict(result='r', props=['C01', 'C04'], slice_matches=True, ensures=['r == is_fence(source@)']))
     U.fn(C + 'unit.rs', 'parse_line', PARSE_LINE)
     U.item(C + 'unit.rs', 'struct Unit', derive=())
-    U.impl(C + 'unit.rs', 'impl Unit', {'new': dict(result='r', props=['C01'])})
+    U.impl(C + 'unit.rs', 'impl Unit', {'new': dict(result='r', props=['C01', 'C04'], ensures=['r.sp_det() == parser.sp_det()', 'forall|s: Seq<char>| #[trigger] r.sp_parse(s) == unit_toks(&*parser, s, 0, false)'])})
     U.impl(C + 'unit.rs', 'impl Parser for Unit', {'parse': UNIT_PARSE},
            extra_members='    // the Parser contract `sp_det ==> r == sp_parse(source)` then says: every line\'s tokens are exactly the inner parser\'s tokens for the text behind\n    // the markers, moved by the markers\' width plus the line\'s offset; a Newline token on every LF; nothing from fenced lines\n    closed spec fn sp_det(&self) -> bool { self.inner.sp_det() }\n    closed spec fn sp_parse(&self, source: Seq<char>) -> Seq<Token> { unit_toks(&*self.inner, source, 0, false) }')
     U.item(C + 'go.rs', 'struct Go', derive=())
+    U.raw('''
+impl Go {
+    // (the field `inner` is private, so the postcondition is wrapped in a specification function of the type)
+    pub closed spec fn go_post(&self, source: Seq<char>, r: Seq<Token>) -> bool {
+        self.inner.sp_det() ==> r.len() == 0 || exists|st: int| 0 <= st <= source.len() && r == shift_all(unit_toks(&*self.inner, #[trigger] source.subrange(st, source.len() as int), 0, false), st)
+    }
+}
+''', name='spec:go_post', props=['C04'])
     U.impl(C + 'go.rs', 'impl Parser for Go', {'parse': GO_PARSE}, extra_members=SP_MEMBERS)
     # harper-ls: the git-commit front-end hands everything before the first '#' to the inner parser
     G = 'harper-ls/src/git_commit_parser.rs'
